@@ -5,11 +5,11 @@
 EXTENDS ZnColl, Json
 CONSTANTS N, Kind, EmitOneIn     \* EmitOneIn: emit a pseudo-random 1/EmitOneIn of the histories (TLC -seed)
 VARIABLES hist, start
-vars == <<lst, dk, dv, rep, hist, start>>
+vars == <<lst, dk, dv, rep, kept, hist, start>>
 
 ListStarts == {<<>>, <<1>>, <<1, 2>>, <<2, 1, 2>>, <<3, 1, 2, 1>>}
 DictStarts == {<<>>, <<"a">>, <<"b", "a">>, <<"c", "a", "b">>}
-Init == /\ hist = <<>> /\ rep = [k |-> "init"]
+Init == /\ hist = <<>> /\ rep = [k |-> "init"] /\ kept = <<>>
         /\ IF Kind = "list" THEN lst \in ListStarts /\ dk = <<>> /\ dv = <<>>
            ELSE lst = <<>> /\ dk \in DictStarts /\ dv = [j \in 1..Len(dk) |-> j]
         /\ start = IF Kind = "list" THEN [l |-> lst] ELSE [k |-> dk, v |-> dv]
